@@ -296,6 +296,44 @@ def rewrite(ot, drops, where, extra=None):
     drops.append({"rule": "R2", "at": loc(m.start()), "what": "string literal .%s() -> verif_fmt()" % m.group(1)})
     nl = ot.s.count("\n", m.start(), m.end())
     ot.replace(m.start(), m.end(), "verif_fmt()" + "\n" * nl)
+  # R3b: byte-string literals b"..." -> array literals (Verus has no byte-string literals); same bytes, same type &[u8; N]
+  while True:
+    mask = ot.mask()
+    m = re.search(r'(?<![A-Za-z0-9_])b"', mask)
+    if not m:
+      break
+    st = m.start()
+    k = m.end()
+    raw = ot.s
+    vals = []
+    while k < len(raw) and raw[k] != '"':
+      c = raw[k]
+      if c == "\\":
+        n = raw[k + 1]
+        if n == "x":
+          vals.append(int(raw[k + 2:k + 4], 16)); k += 4
+        elif n == "0":
+          vals.append(0); k += 2
+        elif n == "n":
+          vals.append(10); k += 2
+        elif n == "r":
+          vals.append(13); k += 2
+        elif n == "t":
+          vals.append(9); k += 2
+        elif n in "\\\"'":
+          vals.append(ord(n)); k += 2
+        elif n == "\n":
+          k += 2
+          while k < len(raw) and raw[k] in " \t\n":
+            k += 1
+        else:
+          raise VxError("byte-string escape \\%s not understood in %s" % (n, where))
+      else:
+        vals.extend(c.encode("utf-8")); k += 1
+    end = k + 1
+    lit = ("&[" + ", ".join(("0x%02xu8" % v) if i == 0 else ("0x%02x" % v) for i, v in enumerate(vals)) + "]") if vals else "&[0u8; 0]"
+    drops.append({"rule": "R3", "at": loc(st), "what": "byte-string literal %s -> array literal (same bytes)" % raw[st:end]})
+    ot.replace(st, end, lit)
   # R3: from_be_bytes / to_be_bytes
   for pat, new, what in [
     (r"\bu64::from_be_bytes\s*\(", "verif_u64_from_be(", "u64::from_be_bytes -> verif_u64_from_be"),
@@ -562,6 +600,10 @@ def extract_fn(gen, f, probe=False):
   for ordn in sorted(f.loops.keys()):
     spec = f.loops[ordn]
     st, kw, brace = sites[ordn]
+    if kw == "for" and spec.get("desugar"):
+      spec = dict(spec)
+      spec["invariant"] = list(spec.get("invariant", [])) + ["vx_i%d <= vx_s%d.len()" % (ordn, ordn)]
+      spec.setdefault("decreases", "vx_s%d.len() - vx_i%d" % (ordn, ordn))
     ins = []
     if spec.get("invariant_except_break"):
       ins.append(("\n      invariant_except_break\n", gen.tag({"kind": "kw", "fn": qual})))
@@ -574,6 +616,28 @@ def extract_fn(gen, f, probe=False):
       ins += _clause_lines(gen, spec["ensures"], qual, "loop_ensures", "        ")
     if spec.get("decreases"):
       ins.append(("\n      decreases %s\n" % spec["decreases"], gen.tag({"kind": "kw", "fn": qual})))
+    if kw == "for" and spec.get("desugar"):
+      # R9: `for PAT in EXPR { B }` over a slice  ==>  indexed while loop (Verus' for-loops reject continue/break);
+      #     { let vx_sN = EXPR; let mut vx_iN: usize = 0; while vx_iN < vx_sN.len() { let PAT = &vx_sN[vx_iN]; vx_iN += 1; B } }
+      hdr = body.s[st:brace]
+      m = re.match(r"for\s+(.+?)\s+in\s+(.+?)(\s*)$", hdr, re.S)
+      if not m:
+        raise VxError("for-loop #%d header of %s::%s not understood: %r" % (ordn, f.file, f.name, hdr))
+      pat, expr = m.group(1), m.group(2).strip()
+      if spec.get("iter_sub"):
+        old_e, new_e = spec["iter_sub"]
+        if expr != old_e:
+          raise VxError("for-loop #%d of %s::%s iterates %r, expected %r: anchor lost" % (ordn, f.file, f.name, expr, old_e))
+        expr = new_e
+      gen.drops.append({"rule": "R9", "at": "%s:%s" % (where, body.o[st]), "what": "for %s in %s -> indexed while loop over the same slice (vx_s%d/vx_i%d)" % (pat, m.group(2).strip(), ordn, ordn)})
+      o0 = body.o[st]
+      add_op(st, brace, "{ let vx_s%d = %s; let mut vx_i%d: usize = 0;\n while vx_i%d < vx_s%d.len() " % (ordn, expr, ordn, ordn, ordn), o0)
+      for text, t in ins:
+        add_op(brace, brace, text, t)
+      add_op(brace + 1, brace + 1, " let %s = &vx_s%d[vx_i%d]; vx_i%d += 1;\n" % (pat, ordn, ordn, ordn), o0)
+      cl = match_close(mask, brace)
+      add_op(cl + 1, cl + 1, " }", o0)
+      continue
     for text, t in ins:
       add_op(brace, brace, text, t)
     if kw == "for" and (spec.get("ghost_iter") or spec.get("iter_sub")):
@@ -703,6 +767,22 @@ def extract_item(gen, it):
       break
     ot.replace(m.start(), m.end(), "\n")
   rewrite(ot, gen.drops, it.file, it.extra)
+  if it.kind in ("const", "static"):
+    # R5: elided 'static in const types is spelled out (Verus treats constants as nullary functions)
+    mm = re.match(r"(pub\s+(?:const|static)\s+[A-Za-z_][A-Za-z0-9_]*\s*:\s*)&(?!'static)", ot.s)
+    if mm:
+      ot.replace(mm.end() - 1, mm.end(), "&'static ")
+    # R3: a byte-slice constant initialised by an array literal cannot be coerced in a const context: emitted as an
+    # external exec const whose ensures is read off the literal
+    mc = re.match(r"pub\s+const\s+([A-Za-z_][A-Za-z0-9_]*)\s*:\s*&'static\s*\[u8\]\s*=\s*&\[([^\]]*)\]\s*;", ot.s, re.S)
+    if mc:
+      lst = mc.group(2).strip()
+      seq = "Seq::<u8>::empty()" if ";" in lst or not lst else "seq![%s]" % lst
+      org = ot.o[0]
+      newt = "#[verifier::external_body]\npub exec const %s: &'static [u8]\n  ensures %s@ =~= %s\n{ &[%s] }" % (mc.group(1), mc.group(1), seq, lst)
+      tail = ot.s[mc.end():]
+      ot.s = newt + tail
+      ot.o = [org] * len(newt) + ot.o[mc.end():]
   if derive:
     ot.insert(0, derive, ot.o[0])
   gen.drops.append({"rule": "R5", "at": "%s:%d" % (it.file, src.line_of(a)), "what": "%s %s: attributes/doc comments/visibility dropped" % (it.kind, it.name)})
